@@ -91,3 +91,53 @@ def install(w, assume_unique):
     w.loop(Q_REG, 3, inv=inv_keys)
     w.call_lemmas[(Q_REG, Q_REG)] = lambda s0, s, v: subtree_frame_steps(s0, s, v.node)
     return con
+
+
+# ------------------------------------------------------------------------------------------------ expand: the part before the first write
+Q_EXPAND = "metapype.eml.references:expand"
+
+
+def install_expand(w):
+    """references.expand up to its second loop (where the substitution starts): collecting the references nodes, building the id
+    register and checking every reference change nothing; a ValueError (duplicate id, dangling reference) leaves the heap as it was;
+    and the substitution loop is reached only if no references node of the subtree is dangling.  The substitution itself is not
+    verified here (bounded pass)."""
+    from . import c09_queries as Q9
+    Q9.install_find_all_descendants(w)
+    reg = install(w, assume_unique=False)
+    REFS = z3.StringVal("references")
+
+    def requires(s, node):
+        d = dict(reg.requires(s, node))
+        return d
+
+    def axioms(s, node):
+        return tree_axioms(s, node)
+
+    def resolvable_upto(s0, s, refs, ids, k):
+        j = z3.Int("ru_j")
+        return smt.FA([j], z3.Implies(z3.And(0 <= j, j < k), s.dmap(ids)[s0.f("_content", s.nat(refs, j))] != smt.absent), patterns=[s.at(refs, j)])
+
+    def inv_check(s0, s, v):
+        refs, ids = Val.r(v.V("references")), Val.r(v.V("ids"))
+        j = z3.Int("ic_j")
+        return {"bound": v._k <= s.len(refs), "resolvable-so-far": resolvable_upto(s0, s, refs, ids, v._k), "top": s.top >= s0.top}
+
+    def stop(s0, s, v):
+        m = z3.Int("st_m")
+        ids = Val.r(v.V("ids"))
+        rm = s.dmap(ids)
+        c = s0.f("_content", m)
+        return {"every-references-node-of-the-subtree-names-a-registered-id":
+                smt.FA([m], z3.Implies(z3.And(SUB(s0, v.node, m), m != v.node, s0.name(m) == REFS),
+                                       z3.And(rm[c] != smt.absent, Val.is_ref(rm[c]), SUB(s0, v.node, Val.r(rm[c])), idval(s0, Val.r(rm[c])) == c)),
+                       patterns=[Q9.RK(s0, v.node, REFS, m)])}
+
+    con = Contract(Q_EXPAND, params={"node": "Node"}, requires=requires, axioms=axioms, ensures=lambda s0, s, node, result=None: {},
+                   raises=[(ValueError, None, None)], writes=(), mod=lambda s0, r, **kw: z3.BoolVal(False), allocates=True, result_ty="none",
+                   modular=False, assumptions=("T-unfold(Sub,W,Tree,desc_count,desc_rank)",))
+    w.call_lemmas[(Q_EXPAND, Q9.Q_FAD)] = lambda s0, s, v: Q9.desc_frame_steps(s0, s)
+    w.call_lemmas[(Q_EXPAND, Q_REG)] = lambda s0, s, v: tree_frame_steps(s0, s)
+    w.loop(Q_EXPAND, 1, inv=inv_check, var_types={"reference": "Node"})
+    w.loop(Q_EXPAND, 2, stop=stop)
+    return con
